@@ -565,7 +565,7 @@ Qed.
 
 (* F9: with truncate-and-write, killing the client in the middle of the write of timestamp.json
    leaves an unparsable file, which is ignored: the replayed older timestamp is then accepted *)
-Definition not_atomic : fixes := Build_fixes true true true true true false.
+Definition not_atomic : fixes := Build_fixes true true true true true false true.
 Definition f9_history : list cyc :=
   [w_cyc false 5 3 None; w_cyc false 6 3 (Some (1%nat, 2)); w_cyc false 4 3 None].
 Lemma f9_not_atomic : results not_atomic f9_history = [Some (1, 5); None; Some (1, 4)].
